@@ -212,7 +212,7 @@ def collect(res, job, out, prop, expect_done=True):
     res.jobs_run += 1
 
 
-def run_jobs(res, jobs, prop, args_fn, timeout=1500, env_fn=None, on_build_fail=None, retry_extra=None):
+def run_jobs(res, jobs, prop, args_fn, timeout=3600, env_fn=None, on_build_fail=None, retry_extra=None):
     """Build and run jobs in parallel."""
     t0 = time.time()
     build.build_all(jobs)
